@@ -98,6 +98,22 @@ h_remove(int cls, int kind, int n, int which)
         SPIF_OBJ_DEL(probe);
     }
     CHECK("the removed element / pair is handed back", r == s.o[which]);
+    {
+        /* the container must not keep referring to the node it has just freed (a stale head, tail or back
+         * link is an allocation the container still treats as its own): its structure is exactly the rest */
+        seq rest;
+        int i, k = 0;
+
+        for (i = 0; i < s.n; i++) {
+            if (i != which) {
+                rest.v[k] = s.v[i];
+                rest.o[k] = s.o[i];
+                k++;
+            }
+        }
+        rest.n = k;
+        check_rep(cls, c, &rest);
+    }
     if (kind == 0) {
         SPIF_OBJ_DEL(c);                  /* container first: it must not touch r any more */
     }
